@@ -23,6 +23,8 @@ CONST_GLOBALS = {
     'vfps::physcons::IAlfven': Fraction(17045),
     'vfps::physcons::me': Fraction('510998.9'),
 }
+CONST_GLOBALS['vfps::Impedance::Z0'] = Fraction('376.730313461')
+CONST_GLOBALS['vfps::Impedance::factor4Ohms'] = Fraction(1)
 CONST_GLOBALS['vfps::physcons::Z0'] = 1 / (CONST_GLOBALS['vfps::physcons::epsilon0'] * CONST_GLOBALS['vfps::physcons::c'])
 CONST_GLOBALS['vfps::physcons::mu0'] = 1 / (CONST_GLOBALS['vfps::physcons::epsilon0'] * CONST_GLOBALS['vfps::physcons::c'] ** 2)
 
@@ -114,7 +116,19 @@ def math_call(ex, st, name, args):
         if isinstance(a[0], StructV):
             raise ExtractionError(f'complex {name}')
         ex.ideal = True
-        return RealV(uf(base)(real(a[0])), a[0].ct if isinstance(a[0], RealV) else DOUBLE)
+        arg = real(a[0])
+        val = uf(base)(arg)
+        # libm axioms of DESIGN §8.2, attached to the call
+        if base == 'exp':
+            st.assume(z3.And(val > 0, z3.Implies(arg <= 0, val <= 1)))
+        elif base == 'sqrt':
+            st.assume(z3.Implies(arg >= 0, z3.And(val >= 0, val * val == arg)))
+        elif base == 'log':
+            st.assume(z3.And(z3.Implies(arg > 1, val > 0), z3.Implies(arg == 1, val == 0)))
+        return RealV(val, a[0].ct if isinstance(a[0], RealV) else DOUBLE)
+    if name in ('airy_ai', 'airy_bi', 'airy_ai_prime', 'airy_bi_prime'):
+        ex.ideal = True
+        return RealV(uf(name)(real(a[0])), DOUBLE)
     if name in ('pow', 'powf'):
         x, y = real(a[0]), real(a[1])
         ys = z3.simplify(y)
@@ -125,7 +139,9 @@ def math_call(ex, st, name, args):
             for _ in range(k):
                 r = r * x
             return RealV(r, DOUBLE)
-        return RealV(uf('pow', 2)(x, y), DOUBLE)
+        val = uf('pow', 2)(x, y)
+        st.assume(z3.And(z3.Implies(x >= 0, val >= 0), z3.Implies(x > 0, val > 0)))     # libm axioms (DESIGN §8.2)
+        return RealV(val, DOUBLE)
     if name == 'fpclassify':
         # FP_ZERO = 2, FP_NORMAL = 4 on glibc; subnormal/nan/inf do not exist in ideal arithmetic
         x = real(a[0])
@@ -146,6 +162,76 @@ def obj_region(o):
     return o.name
 
 
+class Plan(Opaque):
+    """FFTW plan: which transform on which buffers"""
+
+    def __init__(self, kind, n, inp, out):
+        Opaque.__init__(self, 'fft-plan')
+        self.kind, self.n, self.inp, self.out = kind, n, inp, out
+
+
+# FFTW contract (A-FFTW-R2C / A-FFTW-C2R): uninterpreted transforms of the input sequence
+DFT_RE = z3.Function('DFT_re', z3.ArraySort(z3.IntSort(), z3.RealSort()), z3.IntSort(), z3.IntSort(), z3.IntSort(), z3.RealSort())
+DFT_IM = z3.Function('DFT_im', z3.ArraySort(z3.IntSort(), z3.RealSort()), z3.IntSort(), z3.IntSort(), z3.IntSort(), z3.RealSort())
+IDFT_H = z3.Function('IDFT_herm', z3.ArraySort(z3.IntSort(), z3.RealSort()), z3.ArraySort(z3.IntSort(), z3.RealSort()), z3.IntSort(), z3.IntSort(), z3.IntSort(), z3.RealSort())
+
+
+def fft_call(ex, n, st, name, argn):
+    if name in ('fft_alloc_real', 'fft_alloc_complex'):
+        cnt = ex.ev(argn[0], st)
+        ex.newcount += 1
+        region = f'new:{ex.pending_name or ex.newcount}'
+        st.length[region] = cnt.t
+        for key in list(st.arr):
+            if key[0] == region:
+                del st.arr[key]
+        zero = z3.K(z3.IntSort(), z3.RealVal(0))
+        if name == 'fft_alloc_real':
+            st.arr[(region, '')] = zero
+            st.leafct[(region, '')] = FLOAT
+        else:
+            for lf in ('re', 'im'):
+                st.arr[(region, lf)] = zero
+                st.leafct[(region, lf)] = FLOAT
+        return PtrV(region, I(0), None)
+    if name == 'prepareFFT':
+        vals = [ex.ev(a, st) for a in argn]
+        t_in = strip_quals(argn[1].get('type', {}).get('qualType', ''))
+        kind = 'r2c' if ('float' in t_in or 'meshdata_t' in t_in or 'integral_t' in t_in or 'meshaxis_t' in t_in) and 'complex' not in t_in and 'impedance_t' not in t_in else 'c2r'
+        if len(vals) != 3:
+            raise ExtractionError(f'{ex.unit}: prepareFFT overload with {len(vals)} arguments not modelled')
+        return Plan(kind, vals[0].t, vals[1], vals[2])
+    if name == 'fft_execute':
+        pl = ex.ev(argn[0], st)
+        if not isinstance(pl, Plan):
+            raise ExtractionError(f'{ex.unit}: fft_execute on an unknown plan (line {ex.curline})')
+        nn = pl.n
+        for p_ in (pl.inp, pl.out):
+            ex.safe(st, 'fft-buffer', z3.And(p_.off == 0, st.len_of(p_.region) >= nn), f'FFT buffer {p_.region} must hold the plan length')
+        k = z3.Int('k!fft')
+        half = nn / 2
+        if pl.kind == 'r2c':
+            a = st.array(pl.inp.region, '', FLOAT)
+            ore, oim = st.array(pl.out.region, 're', FLOAT), st.array(pl.out.region, 'im', FLOAT)
+            st.arr[(pl.out.region, 're')] = z3.Lambda([k], z3.If(z3.And(k >= 0, k <= half), DFT_RE(a, I(0), nn, k), z3.Select(ore, k)))
+            st.arr[(pl.out.region, 'im')] = z3.Lambda([k], z3.If(z3.And(k >= 0, k <= half), DFT_IM(a, I(0), nn, k), z3.Select(oim, k)))
+            ex.fft_log.append(('r2c', a, None, nn))
+        else:
+            ire, iim = st.array(pl.inp.region, 're', FLOAT), st.array(pl.inp.region, 'im', FLOAT)
+            o = st.array(pl.out.region, '', FLOAT)
+            st.arr[(pl.out.region, '')] = z3.Lambda([k], z3.If(z3.And(k >= 0, k < nn), IDFT_H(ire, iim, nn, half, k), z3.Select(o, k)))
+            # c2r may destroy its input below n/2 (observed behaviour of the linked FFTW; A-FFTW-C2R)
+            fre, fim = State.fresh(pl.inp.region + '$re', ire.sort()), State.fresh(pl.inp.region + '$im', iim.sort())
+            st.arr[(pl.inp.region, 're')] = z3.Lambda([k], z3.If(z3.And(k >= 0, k < half), z3.Select(fre, k), z3.Select(ire, k)))
+            st.arr[(pl.inp.region, 'im')] = z3.Lambda([k], z3.If(z3.And(k >= 0, k < half), z3.Select(fim, k), z3.Select(iim, k)))
+            ex.logw(('r', pl.inp.region))
+            ex.fft_log.append(('c2r', ire, iim, nn))
+        ex.logw(('r', pl.out.region))
+        ex.frame_range(st, pl.out.region, I(0), nn)
+        return VoidV()
+    return NOMODEL
+
+
 def call(ex, n, st, q, rd, objn, argn, method, want_lv):
     from .vcg import LElem, LScal, LObj, LVar
     name = rd.get('name') or method
@@ -158,6 +244,8 @@ def call(ex, n, st, q, rd, objn, argn, method, want_lv):
             r = algo_call(ex, n, st, name, argn)
             if r is not NOMODEL:
                 return r
+        if name in ('fft_alloc_real', 'fft_alloc_complex', 'prepareFFT', 'fft_execute'):
+            return fft_call(ex, n, st, name, argn)
         if name in ('two_pi', 'pi', 'one_div_root_two_pi') and not argn:
             ex.ideal = True
             PI = uf_const('PI')
@@ -167,6 +255,15 @@ def call(ex, n, st, q, rd, objn, argn, method, want_lv):
         return r
     # ---- methods on library classes
     ots = objn.get('type', {}).get('desugaredQualType') or objn.get('type', {}).get('qualType', '')
+    if name in ('operator*', 'operator+', 'operator-', 'operator/') and len(argn) == 1:
+        t2 = argn[0].get('type', {}).get('desugaredQualType') or argn[0].get('type', {}).get('qualType', '')
+        if pod_of(ots) == 'complex' or pod_of(t2) == 'complex':
+            def cv(nd):
+                v = ex.ev_obj(nd, st) if nd.get('valueCategory') == 'lvalue' and pod_of(nd.get('type', {}).get('desugaredQualType') or nd.get('type', {}).get('qualType', '')) else ex.ev(nd, st)
+                if isinstance(v, ObjRef):
+                    v = ex.load(LObj(v), st)
+                return v
+            return complex_binop(ex, name[8:], cv(objn), cv(argn[0]))
     if strip_quals(ots).startswith(('std::normal_distribution', 'std::uniform_real_distribution')) and name == 'operator()':
         # random draw: an unconstrained real (recorded so that posts can name it)
         r = State.fresh('random', z3.RealSort())
@@ -231,7 +328,11 @@ def call(ex, n, st, q, rd, objn, argn, method, want_lv):
             ct = FLOAT
             a = st.array(region, '', ct)
             k = z3.Int('k!resize')
-            if fillv is not None:
+            if isinstance(fillv, StructV):
+                for lf, fv in fillv.fields.items():
+                    al = st.array(region, lf, FLOAT)
+                    st.arr[(region, lf)] = z3.Lambda([k], z3.If(k < oldlen, z3.Select(al, k), real(fv)))
+            elif fillv is not None:
                 st.arr[(region, '')] = z3.Lambda([k], z3.If(k < oldlen, z3.Select(a, k), real(fillv)))
             st.length[region] = sz.t
             ex.logw(('r', region)); ex.logw(('len', region))
@@ -309,6 +410,11 @@ def call(ex, n, st, q, rd, objn, argn, method, want_lv):
             return o.fields['re']
         if name == 'imag':
             return o.fields['im']
+        if name in ('operator*', 'operator+', 'operator-', 'operator/') and len(argn) == 1:
+            rhs = ex.ev(argn[0], st)
+            if isinstance(rhs, ObjRef):
+                rhs = ex.load(LObj(rhs), st)
+            return complex_binop(ex, name[8:], o, rhs)
         if name in ('operator*=', 'operator+=', 'operator-=', 'operator/='):
             rhs = ex.ev(argn[0], st)
             r = complex_binop(ex, name[8:-1], o, rhs)
@@ -454,10 +560,26 @@ def sumarr():
     return _SUMARR
 
 
+_SUMSCALED = z3.Function('SUMSCALED', _A, z3.IntSort(), z3.RealSort(), z3.IntSort(), z3.RealSort())
+
+
+def unfold_sumscaled(a, ao, c, n):
+    """SUMSCALED(a,ao,c,n) = sum_{k<n} c*a[ao+k]"""
+    return z3.And(_SUMSCALED(a, ao, c, z3.IntVal(0)) == 0,
+                  z3.Implies(n >= 0, _SUMSCALED(a, ao, c, n + 1) == _SUMSCALED(a, ao, c, n) + FMUL(c, z3.Select(a, ao + n))))
+
+
+def sumscaled_frame(a_old, a_new, ao, c, n, widx):
+    """a finite sum only depends on the summed cells: if a_new differs from a_old only at index widx and widx
+    is outside [ao, ao+n) the sums agree (instance of extensionality of the recursive definition)"""
+    return z3.Implies(z3.And(a_new == z3.Store(a_old, widx, z3.Select(a_new, widx)), z3.Or(widx < ao, widx >= ao + n)),
+                      _SUMSCALED(a_new, ao, c, n) == _SUMSCALED(a_old, ao, c, n))
+
+
 def recfun(name):
     """SUMSTRIDE(a,base,stride,b,n) = sum_{k<n} a[base+k*stride]*b[k];
     SUMVAR(a,ao,b,bo,m,n) = sum_{k<n} a[ao+k]*(b[bo+k]-m)^2"""
-    return {'SUMSTRIDE': _SUMSTRIDE, 'SUMVAR': _SUMVAR}[name]
+    return {'SUMSTRIDE': _SUMSTRIDE, 'SUMVAR': _SUMVAR, 'SUMSCALED': _SUMSCALED}[name]
 
 
 def unfold_sumprod(a, ao, b, bo, n):
@@ -516,7 +638,8 @@ def algo_call(ex, n, st, name, argn):
         return RealV(real(init) + sumarr()(st.array(a.region, '', FLOAT), a.off, cnt), getattr(init, 'ct', FLOAT))
     if name == 'norm':
         v = ex.ev(argn[0], st)
-        return RealV(v.fields['re'].t * v.fields['re'].t + v.fields['im'].t * v.fields['im'].t, FLOAT)
+        sq = lambda t_: ex.fmul(t_, t_)
+        return RealV(sq(v.fields['re'].t) + sq(v.fields['im'].t), FLOAT)
     if name in ('real', 'imag'):
         v = ex.ev(argn[0], st)
         return v.fields['re' if name == 'real' else 'im']
@@ -554,7 +677,8 @@ def complex_binop(ex, op, a, b):
     elif op == '-':
         r, i = ar - br, ai - bi
     elif op == '*':
-        r, i = ar * br - ai * bi, ar * bi + ai * br
+        m = ex.fmul
+        r, i = m(ar, br) - m(ai, bi), m(ar, bi) + m(ai, br)
     elif op == '/':
         d = br * br + bi * bi
         r, i = (ar * br + ai * bi) / d, (ai * br - ar * bi) / d
